@@ -2,7 +2,7 @@ import Babble.Proofs.HGOrder
 import Babble.Proofs.HGFame
 import Babble.Proofs.HGBlocks
 import Babble.Proofs.DagVote
-import Babble.Proofs.HGWitness
+import Babble.Proofs.HGWitnessUnique
 /-! # C03 — consensus output is a function of the event DAG only
     Proved here: the deterministic ingredients that make the output independent of process-local
     state, and — for a static validator set, on the declarative model `Babble.Dag` that the
@@ -114,5 +114,16 @@ theorem witness_round_above_self_parent (g : List Nat) (es : List HG.Ev) (hnd : 
     (hx : (HG.runAll (HG.St.init g) es).get x = some e) (hw : e.wit = some true) (hr : e.round = some r)
     (hsp : e.sp ≠ "") (hp : (HG.runAll (HG.St.init g) es).get e.sp = some p) (hrp : p.round = some rp) : rp < r :=
   HG.witness_above_self_parent g es hnd hfresh x e p r rp hx hw hr hsp hp hrp
+
+/-- **one witness per creator and round** (operational model): two stored witnesses of the same
+    creator with the same round are the same event — rounds never decrease along ancestry, a creator's
+    events form one chain (C07), and a witness's round is strictly above its self-parent's.  On the
+    declarative model this is `wit_unique`; the vote counting of `DecideFame` relies on it. -/
+theorem one_witness_per_creator_and_round (g : List Nat) (es : List HG.Ev) (hnd : (es.map (·.id)).Nodup)
+    (hfresh : ∀ e ∈ es, e.id ≠ "" ∧ e.round = none ∧ e.rr = none) (y z : HG.Ev) (r : Int)
+    (hy : y ∈ (HG.runAll (HG.St.init g) es).events) (hz : z ∈ (HG.runAll (HG.St.init g) es).events)
+    (hc : y.creator = z.creator) (hwy : y.wit = some true) (hwz : z.wit = some true)
+    (hry : y.round = some r) (hrz : z.round = some r) : y = z :=
+  HG.witness_unique g es hnd hfresh y z r hy hz hc hwy hwz hry hrz
 
 end Babble.Props.C03
